@@ -21,7 +21,7 @@
 //!
 //! Crash containment: a transfer that never ends (e.g. a retry loop that keeps seeing a stale EINTR) would hang the
 //! run.  An armed descriptor that receives more than CALL_LIMIT calls in one arming ends the process with exit code
-//! 97 (deterministic, no timing); `watched` additionally ends it (code 98) when one case takes longer than 20 s.  The
+//! 97 (deterministic, no timing); `watched` additionally ends it (code 98) when one case takes longer than 10 s.  The
 //! runner treats a dead harness as a failing case and names it (lib/runner.py, VMH_ANNOUNCE).
 use std::sync::atomic::{AtomicI32, AtomicU64, Ordering};
 use std::sync::Mutex;
@@ -91,8 +91,8 @@ pub fn watched<T>(f: impl FnOnce() -> T) -> T {
         std::thread::spawn(move || loop {
             std::thread::sleep(std::time::Duration::from_millis(200));
             let a = CASE_STARTED_MS.load(Ordering::SeqCst);
-            if a != 0 && t0.elapsed().as_millis() as u64 + 1 > a + 20_000 {
-                eprintln!("fdscript watchdog: case did not return within 20 s");
+            if a != 0 && t0.elapsed().as_millis() as u64 + 1 > a + 10_000 {
+                eprintln!("fdscript watchdog: case did not return within 10 s");
                 std::process::exit(98);
             }
         });
@@ -165,11 +165,14 @@ pub fn self_test() {
         let mut rd = unsafe { std::fs::File::from_raw_fd(fds[0]) };
         let mut wr = unsafe { std::fs::File::from_raw_fd(fds[1]) };
         let mut data = [7u8, 8, 9, 10];
+        // Only "is the call intercepted" is asked of vm-memory (its single write / read must see the scripted EINTR);
+        // everything that depends on counts goes through std, which is not under test - so that a defect of the
+        // crate shows up in the suites as a failing case, not here.
         // write side: Eintr is seen by vm-memory's single write, a short write really moves 1 byte
         arm(wr.as_raw_fd(), &[Beh::Eintr, Beh::Short(1), Beh::Err(libc::ENOSPC)]);
         let vs = VolatileSlice::from(&mut data[..]);
         let r1 = wr.write_volatile(&vs);
-        let r2 = wr.write_volatile(&vs);
+        let r2 = wr.write(&[7, 8, 9, 10]);
         let r3 = wr.write(&[1, 2, 3]);
         let (calls, left) = disarm();
         let ok_w = matches!(&r1, Err(vm_memory::VolatileMemoryError::IOError(e)) if e.kind() == std::io::ErrorKind::Interrupted)
@@ -184,12 +187,12 @@ pub fn self_test() {
         let q1 = rd.read_volatile(&mut vs);
         let mut b2 = [0u8; 4];
         let q2 = rd.read(&mut b2);
-        let q3 = rd.read_volatile(&mut vs);
+        let q3 = rd.read(&mut b2);
         let (calls_r, _) = disarm();
         let ok_r = matches!(&q1, Err(vm_memory::VolatileMemoryError::IOError(e)) if e.kind() == std::io::ErrorKind::Interrupted)
             && matches!(&q2, Err(e) if e.kind() == std::io::ErrorKind::Interrupted)
             && matches!(q3, Ok(1))
-            && buf[0] == 7
+            && b2[0] == 7
             && calls_r == 3;
         if !(ok_w && ok_r) {
             eprintln!("fdscript: read/write interposition is not effective in this build (w={} r={})", ok_w, ok_r);
